@@ -40,9 +40,10 @@ RULE = (
 BOUNDS = {
     "quick": {"max_rows": 2, "D": [1, 2], "sweeps": "3, then reset_model() and 1 more", "deviation_bound": 0, "deviation_datasets": 0,
               "whole_run_scripts": "default pattern; every gamma draw x0.002; every gamma draw x500 (precisions driven into both clipping bounds)",
-              "sparse_large_probes": "4097 and 5000 observations, D=2, 3 sweeps: fitted values vs parameters after every block, export"},
+              "sparse_large_probes": "4097 and 5000 observations, D=2, 3 sweeps: fitted values vs parameters after every block, export",
+              "incremental": "every dataset also with its observations handed over in two add_observations calls (every split point), default answer pattern"},
     "thorough": {"max_rows": 3, "D": [1, 2, 3], "sweeps": "3, then reset_model() and 1 more", "deviation_bound": 1, "deviation_datasets": "all datasets with <= 2 rows, D=2",
-                 "whole_run_scripts": "as quick", "sparse_large_probes": "as quick"},
+                 "whole_run_scripts": "as quick", "sparse_large_probes": "as quick", "incremental": "as quick"},
 }
 ASSUMPTIONS = [
     "numpy's Generator.normal / Generator.gamma are trusted to sample the distribution whose parameters they are given",
@@ -473,13 +474,19 @@ class Patches:
             setattr(owner, name, old)
 
 
-def execute(ds, D, deviation, sweeps):
-    """Returns (violations [(sig, msg)], n_blocks, n_draws, outcome digest material)."""
+def execute(ds, D, deviation, sweeps, split=None):
+    """Returns (violations [(sig, msg)], n_blocks, n_draws, outcome digest material).
+    split=k: the observations reach the model in two add_observations calls (first k rows, then the rest)."""
     out = []
     screen = build_screen(ds)
     _, _, es = space()
     model = SC.SparseDrugCombo(experiment_space=es, n_embedding_dimensions=D)
-    if screen.size:
+    if screen.size and split:
+        first = np.zeros(screen.size, dtype=bool)
+        first[:split] = True
+        model.add_observations(screen.subset(first))
+        model.add_observations(screen.subset(~first))
+    elif screen.size:
         model.add_observations(screen.subset_observed())
     wm = model.wrapped_model
     y, cl, d1, d2 = wm.encode_obs()
@@ -671,34 +678,35 @@ DEV_VALUES = [{"z": 3.0, "g": 0.01}, {"z": -3.0, "g": 100.0}]
 GLOBAL_SCRIPTS = [("all", {"g": 0.002}), ("all", {"g": 500.0})]
 
 
-def report(col, res, ds, D, deviation, sweeps):
-    case = {"dataset": list(ds), "D": D, "deviation": deviation, "sweeps": sweeps}
+def report(col, res, ds, D, deviation, sweeps, split=None):
+    case = {"dataset": list(ds), "D": D, "deviation": deviation, "sweeps": sweeps, "split": split}
     for sig, msg in res:
         col.violation(f"C08|{sig.split('[')[0] if '|' not in sig else sig}", f"dataset {[row_types()[i] for i in ds]}, D={D}, script deviation {deviation}: {msg}", case)
 
 
-def run_one(col, ds, D, deviation, sweeps):
+def run_one(col, ds, D, deviation, sweeps, split=None):
     if deviation is None:
         dv = None
     elif deviation[0] == "all":
         dv = GLOBAL_SCRIPTS[deviation[1]]
     else:
         dv = (deviation[0], DEV_VALUES[deviation[1]])
-    res, n_blocks, n_draws, rec, mvns = execute(ds, D, dv, sweeps)
+    res, n_blocks, n_draws, rec, mvns = execute(ds, D, dv, sweeps, split=split)
     col.evaluations += 1
     col.states += n_blocks + 1
     col.transitions += n_blocks
     col.count("draws", n_draws)
-    col.outcome(tuple(ds), D, deviation, np.asarray(rec.wm.W).tobytes(), float(rec.wm.prec))
+    col.outcome(tuple(ds), D, deviation, split, np.asarray(rec.wm.W).tobytes(), float(rec.wm.prec))
     if ds:
-        col.nontriv(tuple(ds), D, deviation)
+        col.nontriv(tuple(ds), D, deviation, split)
     # normalise signatures: 'W0[1]|prior' -> 'W0|prior'
     norm = []
     for sig, msg in res:
         head = sig.split("|")
         head[0] = head[0].split("[")[0]
         norm.append(("|".join(head), msg))
-    report(col, norm, ds, D, deviation, sweeps)
+    report(col, [(sg + ("|two-add-calls" if split else ""), ms + (f" (observations added in two calls: {split} + {len(ds) - split})" if split else "")) for sg, ms in norm],
+           ds, D, deviation, sweeps, split)
     return rec, mvns
 
 
@@ -740,6 +748,9 @@ def run_item(item, col, tier):
             seen_q.extend((r["Q"], r["b"]) for r in mvns[:6] if r["b"] is not None)
             for gi in range(len(GLOBAL_SCRIPTS)):
                 run_one(col, dss[i], item["D"], ("all", gi), sweeps)
+            # history: the same observations handed over in two add_observations calls (results arrive plate by plate)
+            for k in range(1, len(dss[i])):
+                run_one(col, dss[i], item["D"], None, sweeps, split=k)
         out = []
         check_mvn_sampler(seen_q[:40], out)
         col.count("mvn_pairs_checked", len(seen_q[:40]))
@@ -767,4 +778,4 @@ def replay(case, col):
         run_item({"kind": "large", "n": case["large"], "D": case.get("D", 2)}, col, "quick")
         return
     dev = case.get("deviation")
-    run_one(col, tuple(case["dataset"]), case["D"], None if dev is None else tuple(dev), case.get("sweeps", 3))
+    run_one(col, tuple(case["dataset"]), case["D"], None if dev is None else tuple(dev), case.get("sweeps", 3), split=case.get("split"))
